@@ -79,6 +79,10 @@ TABLE = {
    text='a real Client/AsyncClient connected to a real Server/AsyncServer through a bridge in which every frame is re-encoded by the real engine.io framing (polling payload with base64 attachments, or websocket packets with raw binary), rotating over all 8 configurations {threaded, asyncio} x {default, msgpack} x {polling, websocket}; generated messages in both directions via emit, emit+callback, call() and send() with random event names, JSON+bytes payloads (tuple / None / other at top level) and handler return values; handler arguments, callback arguments and call() results compared with the argument rule; bursts of up to 50 consecutive emits checked for order',
    note='network replaced below engine.io; thread-per-message dispatch (threaded engine.io client; threaded server with async_handlers=True) defines no order and is not judged for it; 64-bit integers, finite floats, no lone surrogates',
    tech='runtime monitoring: end-to-end differential oracle (argument rule) over real client and server objects with unique sequence numbers'),
+ 'C14': dict(cat='exploration',
+   text='differential monitor: one generated script (configuration + operations that refer to session ids symbolically) is executed against the threaded class and against its asyncio twin and the two normalised traces must be identical. Five script families: Server/Manager vs AsyncServer/AsyncManager on the direct-drive harness (client packets valid and malformed, partial binary packets, API calls incl. emit/call()/rooms/sessions/disconnect, handler faults, transport losses); Client vs AsyncClient on the scripted engine.io transport (connect plans with refusals/silence, server packets valid and malformed, emit/send/call, losses with reconnection plans, back-off waits and attempt parameters); PubSubManager vs AsyncPubSubManager on the in-memory channel (API calls, injected cluster messages of every method and malformed ones, own-host echoes; published messages compared); Namespace/ClientNamespace helper forwarding and trigger_event dispatch; SimpleClient vs AsyncSimpleClient (receive/emit/call/loss/reconnect sequences)',
+   note='compares frames per peer in per-peer order, handler/callback invocations with arguments, API results with type distinction (tuple/list, int/float/bool, bytes/str) or exception types, types of contained errors, pub/sub messages, reconnection attempts and back-off waits; the global interleaving of sends to different peers is not compared; a defect present in both implementations is invisible by construction (the other properties cover it); one known finding (vestigial room parameter of ClientNamespace.send)',
+   tech='runtime monitoring: differential trace oracle (threaded vs asyncio twin on the same generated script)'),
 }
 # filled in as checks are built; see bottom of file for the not-built reason
 
